@@ -229,6 +229,8 @@ type world struct {
 	commits []commitRec
 	chosen  map[int]bool
 	// output of the quiescent dry run
+	dry          bool           // the next launch is the dry run
+	keyRange     map[string]int // key -> index of the range whose iteration emitted it in the dry run
 	dryItems     []realItem
 	dryConc      bool
 	partitionErr string
@@ -378,7 +380,7 @@ func (w *world) build(l layout, t *template) {
 	}
 	w.firstTs = int(v) + 1
 	if lw := t.learnt; lw != nil {
-		w.ranges, w.kidx, w.mkey, w.rangeOf, w.initTs = lw.ranges, lw.kidx, lw.mkey, lw.rangeOf, lw.initTs
+		w.ranges, w.kidx, w.mkey, w.rangeOf, w.initTs, w.keyRange = lw.ranges, lw.kidx, lw.mkey, lw.rangeOf, lw.initTs, lw.keyRange
 		w.dryItems, w.dryConc = lw.dryItems, lw.dryConc
 		if w.firstTs != lw.firstTs {
 			fatalf("copy of the template starts at version %d, first case at %d", w.firstTs, lw.firstTs)
@@ -401,12 +403,24 @@ func (w *world) build(l layout, t *template) {
 	w.initTs = nil
 	nm := 0
 	placed := map[string]bool{}
+	w.keyRange = map[string]int{}
+	for _, it := range items {
+		ri := int(it.streamID) - 1
+		if ri < 0 || ri >= len(w.ranges) {
+			w.partitionErr = fmt.Sprintf("quiescent run: key %q carries stream id %d, %d ranges were handed out", it.key, it.streamID, len(w.ranges))
+			continue
+		}
+		if old, dup := w.keyRange[it.key]; dup && old != ri {
+			w.partitionErr = fmt.Sprintf("quiescent run: key %q emitted by the iterations of ranges %d and %d", it.key, old, ri)
+			continue
+		}
+		w.keyRange[it.key] = ri
+	}
 	for i := range w.ranges {
 		r := &w.ranges[i]
 		for _, k := range w.pool {
-			if strings.HasPrefix(k, w.prefix) && r.contains([]byte(k)) {
+			if ri, ok := w.keyRange[k]; ok && ri == i && strings.HasPrefix(k, w.prefix) {
 				if _, dup := placed[k]; dup {
-					w.partitionErr = fmt.Sprintf("key %q lies in two of the ranges handed out", k)
 					continue
 				}
 				placed[k] = true
@@ -467,6 +481,7 @@ type runCtl struct {
 	retVer  uint64
 	backup  bytes.Buffer
 	control bool
+	dry     bool
 }
 
 func (rc *runCtl) signal() {
@@ -504,12 +519,9 @@ func (rc *runCtl) chooseKey(item *badger.Item) bool {
 	w := rc.w
 	if rc.control {
 		g := vh.GoID()
-		ri := -1
-		for i := range w.ranges {
-			if w.ranges[i].contains(key) {
-				ri = i
-				break
-			}
+		ri, ok := w.keyRange[string(key)]
+		if !ok {
+			ri = -1
 		}
 		rc.mu.Lock()
 		p := rc.byG[g]
@@ -527,7 +539,7 @@ func (rc *runCtl) chooseKey(item *badger.Item) bool {
 			rc.mu.Unlock()
 		}
 	}
-	if w.chosen == nil || !rc.control {
+	if w.chosen == nil || rc.dry {
 		return true
 	}
 	k, ok := w.kidx[string(key)]
@@ -572,7 +584,7 @@ func (rc *runCtl) waitFor(what string, cond func() bool) error {
 // launch starts Orchestrate / Backup with all producers parked at the gate.
 func (w *world) launch(since uint64, control bool) (*runCtl, error) {
 	rc := &runCtl{w: w, byG: map[int64]*prod{}, notify: make(chan struct{}, 1), since: since,
-		doneCh: make(chan error, 1), control: control}
+		doneCh: make(chan error, 1), control: control, dry: w.dry, drain: w.dry}
 	for i := 0; i < w.numGo; i++ {
 		rc.prods = append(rc.prods, &prod{thread: i, cur: -1})
 	}
@@ -622,10 +634,11 @@ func (w *world) launch(since uint64, control bool) (*runCtl, error) {
 
 // visible: does an iterator reading at readTs with SinceTs since see any key in real range ri?
 func (w *world) visible(ri int, readTs, since uint64) bool {
-	r := &w.ranges[ri]
 	for _, c := range w.commits {
-		if c.ver <= readTs && c.ver > since && strings.HasPrefix(c.key, w.prefix) && r.contains([]byte(c.key)) {
-			return true
+		if c.ver <= readTs && c.ver > since && strings.HasPrefix(c.key, w.prefix) {
+			if r, ok := w.keyRange[c.key]; ok && r == ri {
+				return true
+			}
 		}
 	}
 	return false
@@ -757,9 +770,23 @@ func (rc *runCtl) output() ([]realItem, error) {
 }
 
 // dryRun runs one uncontrolled stream over everything and returns its output.
+// Only producer 0 is released until it returned, so it iterates every range in hand-out order and
+// the stream id of an emitted KV (one id per range iteration) tells which range its key belongs to.
 func (w *world) dryRun() ([]realItem, bool, error) {
-	rc, err := w.launch(0, false)
+	w.dry = true
+	rc, err := w.launch(0, true)
+	w.dry = false
 	if err != nil {
+		return nil, false, err
+	}
+	rc.mu.Lock()
+	rc.drain = true // no parking in ChooseKey
+	rc.mu.Unlock()
+	p := rc.prods[0]
+	if !rc.gate.Release(func(a []interface{}) bool { return a[0].(int) == 0 }) {
+		return nil, false, fmt.Errorf("producer 0 not parked at gate")
+	}
+	if err := rc.waitFor("producer 0 to return", func() bool { return p.exited }); err != nil {
 		return nil, false, err
 	}
 	if err := rc.finish(); err != nil {
@@ -1313,7 +1340,25 @@ func main() {
 				}
 			}
 		}
-		_ = enc.Encode(map[string]interface{}{"keys": keys, "rangeOf": w.rangeOf, "initTs": w.initTs, "firstTs": w.firstTs,
+		// model keys whose user key is the user-key part of a range boundary (boundaries are internal
+		// keys: user key + 8 byte version suffix); commits to them put a newer version "before" the split
+		splitKeys := []int{}
+		for _, r := range w.ranges {
+			for _, b := range [][]byte{r.left, r.right} {
+				if len(b) > 8 {
+					if k, ok := w.kidx[string(b[:len(b)-8])]; ok {
+						dup := false
+						for _, x := range splitKeys {
+							dup = dup || x == k
+						}
+						if !dup {
+							splitKeys = append(splitKeys, k)
+						}
+					}
+				}
+			}
+		}
+		_ = enc.Encode(map[string]interface{}{"splitKeys": splitKeys, "keys": keys, "rangeOf": w.rangeOf, "initTs": w.initTs, "firstTs": w.firstTs,
 			"nranges": nr, "realRanges": rr, "quiescentMissing": missing, "quiescentTwice": dups,
 			"partitionErr": w.partitionErr, "sendConcurrent": w.dryConc})
 		w.db.Close()
